@@ -155,6 +155,8 @@ def main(tier, replay=None, selftest=False):
     for pos in POSITIONS:
         for norm in ("none", "rust"):
             pool = [n for n in names if not (pos == "enumvalue" and n in ("true", "false", "null"))]
+            if pos == "listfield":
+                pool = [n for n in pool if n != "x"]       # `x: Int` is the fixed member of the fixture object
             if pos == "aliascase":
                 pool = [n for n in pool if respell(n) and respell(n) not in ("true", "false", "null")]
             if pos == "enumvalue":
